@@ -87,22 +87,35 @@ theorem encodeText_none_of_fit {r : InstrRow} {text : Str} {o : Operand} {pkg : 
 
 /-! ### a zero offset written out (`0,R`): translated exactly like the empty offset -/
 
-theorem translateIndexed_zero_val (o : Operand) (r : InstrRow) {h : Option Nat} {m : Mode} {n : Bool}
-    (hl : o.left = .val (.numeric 0 h m n)) :
+theorem ne_pcr_of_noSub {right : Str} (hpcr : hasSub (str "PCR") right = false) : (right == str "PCR") = false := by
+  cases hb : right == str "PCR"
+  · rfl
+  · have : right = str "PCR" := by simpa using hb
+    subst this
+    exact absurd hpcr (by decide)
+
+/-- (since repair A9 this needs a register other than PCR: `0,PCR` is an offset of 0 from the program counter) -/
+theorem translateIndexed_zero_val (o : Operand) (r : InstrRow) {h : Option Nat} {m : Mode} {n : Bool} {right : Str}
+    (hl : o.left = .val (.numeric 0 h m n)) (hr : o.right = some right) (hpcr : hasSub (str "PCR") right = false) :
     translateIndexed o r = translateIndexed { o with left := .text [] } r := by
-  simp [translateIndexed, hl]
+  have hne := ne_pcr_of_noSub hpcr
+  simp only [translateIndexed, hl, hr, pure_bind, hpcr, hne, Bool.false_and, Bool.not_false, Bool.and_false]
+  rfl
 
-theorem translateExtInd_zero_val (o : Operand) (r : InstrRow) {h : Option Nat} {m : Mode} {n : Bool}
-    (hl : o.left = .val (.numeric 0 h m n)) :
+theorem translateExtInd_zero_val (o : Operand) (r : InstrRow) {h : Option Nat} {m : Mode} {n : Bool} {right : Str}
+    (hl : o.left = .val (.numeric 0 h m n)) (hr : o.right = some right) (hpcr : hasSub (str "PCR") right = false) :
     translateExtIndirect o r = translateExtIndirect { o with left := .text [] } r := by
-  simp [translateExtIndirect, hl]
+  have hne := ne_pcr_of_noSub hpcr
+  simp only [translateExtIndirect, hl, hr, pure_bind, hpcr, hne, Bool.false_and, Bool.not_false, Bool.and_false]
+  rfl
 
-theorem translateOperand_zero_val (o : Operand) (r : InstrRow) {h : Option Nat} {m : Mode} {n : Bool}
-    (hk : o.kind = .indexed ∨ o.kind = .extIndirect) (hl : o.left = .val (.numeric 0 h m n)) :
+theorem translateOperand_zero_val (o : Operand) (r : InstrRow) {h : Option Nat} {m : Mode} {n : Bool} {right : Str}
+    (hk : o.kind = .indexed ∨ o.kind = .extIndirect) (hl : o.left = .val (.numeric 0 h m n))
+    (hr : o.right = some right) (hpcr : hasSub (str "PCR") right = false) :
     translateOperand o r = translateOperand { o with left := .text [] } r := by
   rcases hk with hk | hk
-  · simp only [translateOperand, hk]; exact translateIndexed_zero_val o r hl
-  · simp only [translateOperand, hk]; exact translateExtInd_zero_val o r hl
+  · simp only [translateOperand, hk]; exact translateIndexed_zero_val o r hl hr hpcr
+  · simp only [translateOperand, hk]; exact translateExtInd_zero_val o r hl hr hpcr
 
 /-! ### rows of machine instructions -/
 
@@ -189,9 +202,9 @@ theorem resolveOperand_unknown_extended (row : InstrRow) (s : Str) (i : Nat) (h 
   simp [resolveOperand, resolve_numeric, Value.isDirect, Value.isExplicitDirect, Value.isExplicitExtended, Value.mode]
 
 /-- UnknownOperand with a DIRECT-mode byte becomes a DirectOperand whose value is REBUILT (hint 2) -/
-theorem resolveOperand_unknown_direct (row : InstrRow) (s : Str) {i : Nat} (h : Option Nat) (n : Bool) (t : SymTab)
+theorem resolveOperand_unknown_direct (row : InstrRow) (s : Str) {i : Nat} (h : Option Nat) (t : SymTab)
     (hi : i < 256) :
-    resolveOperand { kind := .unknown, text := s, value := .numeric i h .direct n } row t =
+    resolveOperand { kind := .unknown, text := s, value := .numeric i h .direct false } row t =
       .ok { kind := .direct, text := s, value := .numeric i (some 2) .direct false } := by
   have a : ¬ ((i : Int) > 65535) := by omega
   have b : ¬ ((i : Int) < 0) := by omega
@@ -465,12 +478,12 @@ theorem frontEnd_explDirect_dec {x : Str} (hx : IsDecLit x) (hv : parseBase 10 x
   obtain ⟨h, m, hc, hm⟩ := createV_lt_dec hx hv row.is16Bit
   rcases hm with rfl | ⟨rfl, hlt⟩
   · simp [frontEnd, createOperand_unknown hf (by simp) (by simp) (by decide) hc, resolveOperand_unknown_explDirect _ _ _ _ hv]
-  · simp [frontEnd, createOperand_unknown hf (by simp) (by simp) (by decide) hc, resolveOperand_unknown_direct _ _ _ _ _ hlt, hlt]
+  · simp [frontEnd, createOperand_unknown hf (by simp) (by simp) (by decide) hc, resolveOperand_unknown_direct _ _ _ _ hlt, hlt]
 
-theorem frontEnd_direct {s : Str} {i : Nat} {h : Option Nat} {n : Bool} (hh : OperandHead s) (hne : s ≠ [])
-    (hv : createV s false row.is16Bit = .ok (.numeric i h .direct n)) (hi : i < 256) :
+theorem frontEnd_direct {s : Str} {i : Nat} {h : Option Nat} (hh : OperandHead s) (hne : s ≠ [])
+    (hv : createV s false row.is16Bit = .ok (.numeric i h .direct false)) (hi : i < 256) :
     frontEnd row s = .ok { kind := .direct, text := s, value := .numeric i (some 2) .direct false } := by
-  simp [frontEnd, createOperand_unknown hf hne hh.noBracket (by decide) hv, resolveOperand_unknown_direct _ _ _ _ _ hi]
+  simp [frontEnd, createOperand_unknown hf hne hh.noBracket (by decide) hv, resolveOperand_unknown_direct _ _ _ _ hi]
 
 theorem frontEnd_bracket_numeric {inner : Str} {i : Nat} {h : Option Nat} {m : Mode} {n : Bool}
     (hv : createV inner false row.is16Bit = .ok (.numeric i h m n)) :
